@@ -1,5 +1,6 @@
 import VermouthModel.C19
 import VermouthModel.C19_Repair
+import VermouthModel.C19_Cli
 import Generated.C19Table
 open Proto C19
 
@@ -100,6 +101,19 @@ def namedMatchOf (ref : C04.Block) (t : Tok) : Option (Int × Int) := do
     pure (a.key, ← k.int?)
   | _ => none
 
+def optOf (t : Tok) : Option Opt := do
+  match ← t.list? with
+  | [Tok.int 0, s] => pure (.mutate (← s.str?).toList)
+  | [Tok.int 1, s] => pure (.modify (← s.str?).toList)
+  | [Tok.int 2, s] => pure (.nterO (← s.str?).toList)
+  | [Tok.int 3, s] => pure (.cterO (← s.str?).toList)
+  | [Tok.int 4, _] => pure .nt
+  | _ => none
+
+def encLists (l : List (List Str)) : String := encList (l.map fun e => encList (e.map encS))
+
+def encRequests (l : List Request) : String := encList (l.map fun r => encList [encSpec r.spec, encS r.target])
+
 def handle (_ : Unit) (toks : List Tok) : Unit × String :=
   let r : Option String :=
     match toks with
@@ -150,6 +164,23 @@ def handle (_ : Unit) (toks : List Tok) : Unit × String :=
         let g ← (← given.list?).mapM pairOf
         let b ← nt.nat?
         pure (encList ((cliModifications (b != 0) g).map fun p => encList [encS p.1, encS p.2]))
+    | [Tok.str "cli2", opts] => do
+        let os ← (← opts.list?).mapM optOf
+        match cliLists os with
+        | .assemblyError => pure "assemblyerror"
+        | .lists mods muts =>
+          let ctor := match constructProc mods muts with
+            | none => "valueerror"
+            | some (rm, rt) => encList [encRequests rm, encRequests rt]
+          -- the derived request lists must agree with the one-step definition
+          let same := cliRequests os == none && (constructProc mods muts).isNone ||
+                      (cliRequests os).isSome && (constructProc mods muts).isSome
+          pure ("ok " ++ encLists mods ++ " " ++ encLists muts ++ " " ++ ctor ++ (if same then "" else " INCONSISTENT"))
+    | [Tok.str "asm", nt, given] => do
+        let g ← (← given.list?).mapM fun t => do pure ((← strs? t).map String.toList)
+        match assembleModifications ((← nt.nat?) != 0) g with
+        | none => pure "error"
+        | some out => pure ("ok " ++ encLists out)
     | [Tok.str "reference", blocks, mods, rn, mu, ms] => do
         let ff : C19.Repair.FF := { blocks := ← (← blocks.list?).mapM rBlockOf, mods := ← (← mods.list?).mapM rBlockOf }
         match C19.Repair.getReference ff (← rn.str?) (← optStrsOf mu) (← optStrsOf ms) with
